@@ -48,6 +48,7 @@ def run_tournament(unit) -> UnitResult:
     r = UnitResult()
     n, ts, repl, minimize = unit["n"], unit["ts"], unit["repl"], unit["minimize"]
     rep = StubRepresentation(2)
+    keep_alive: list = []
     for fits in itertools.product([0, 1, 2], repeat=n):
         if list(fits) != sorted(fits):
             continue  # selection draws by index: populations are enumerated up to reordering of values... no: keep order-free only for size
@@ -55,6 +56,11 @@ def run_tournament(unit) -> UnitResult:
             for form in ("list", "iterator"):
                 problem = SingleObjectiveProblem(lambda p: float(p.v), minimize=minimize)
                 inds = [Individual(rep._new(f), rep) for f in fits]
+                if (target + len(form)) % 2 == 0:
+                    # the individuals already carry a fitness for ANOTHER problem with the opposite ranking
+                    other = SingleObjectiveProblem(lambda p: float(p.v), minimize=not minimize)
+                    SequentialEvaluator().evaluate(other, inds)
+                    keep_alive.append(other)
 
                 def run(src, inds=inds, form=form, target=target, problem=problem):
                     pop = list(inds) if form == "list" else iter(list(inds))
